@@ -1,4 +1,141 @@
+(* C18_Properties.v — the property theorems of C18 (RangeLock).  Statements only; proofs are in C18_Proofs.v. *)
 From Coq Require Import ZArith List.
-From PV Require Import Base.U64 C18.C18_Model C18.C18_Proofs.
-Theorem c18_placeholder : True. Proof. exact placeholder. Qed.
-Print Assumptions c18_placeholder.
+From PV Require Import Base.U64 C18.C18_Model C18.C18_Proofs C18.C18_Waiters.
+Import ListNotations.
+Local Open Scope Z_scope.
+
+(* For EVERY interleaving of RangeLock method calls and wake-ups by any number of threads (reachable = any
+   sequence of atomic steps), with requests that do not reach past 2^64-1 (guard = class of known finding F4):
+   the held ranges are pairwise disjoint as byte sets and m_index is ordered by the comparator. *)
+Theorem rl_disjoint : forall s, reachable G_safe s -> disjoint_held (idx s) /\ ordered (idx s).
+Proof. exact rl_disjoint_proof. Qed.
+Print Assumptions rl_disjoint.
+
+(* the same for every scripted operation sequence (induction over op lists), as run by the correspondence check *)
+Theorem rl_disjoint_ops : forall cs, Forall G_safe cs ->
+  disjoint_held (idx (fst (run_ops init_state cs))) /\ ordered (idx (fst (run_ops init_state cs))).
+Proof. exact rl_disjoint_ops_proof. Qed.
+Print Assumptions rl_disjoint_ops.
+
+(* no guard at all is needed for the ordering of the set (zero lengths, saturating ends included) *)
+Theorem rl_ordered : forall s, reachable op_u64 s -> ordered (idx s) /\ NoDup (map e_id (idx s)).
+Proof. exact rl_ordered_proof. Qed.
+Print Assumptions rl_ordered.
+
+(* F4: without the guard byte 2^64-1 can be held twice *)
+Theorem rl_disjoint_refuted : exists cs, Forall op_u64 cs /\ ~ disjoint_held (idx (fst (run_ops init_state cs))).
+Proof. exact rl_disjoint_refuted_proof. Qed.
+Print Assumptions rl_disjoint_refuted.
+
+Theorem rl_retry_succeeds : forall s t k o l,
+  inv s ->
+  Forall (fun e => nosat (e_off e) (e_len e)) (idx s) -> Forall (fun e => nonempty (e_off e) (e_len e)) (idx s) ->
+  u64 o -> u64 l -> nosat o l -> nonempty o l ->
+  (forall e x, In e (idx s) -> byte_in x e -> o <= x < o + l -> False) ->
+  exists pre post, idx s = pre ++ post /\
+    attempt s t k o l = (mkSt (pre ++ mkE o l (nid s) [] :: post) (nid s + 1) (pend s) (ready s), [EvAcq t k (nid s)]).
+Proof. exact rl_retry_succeeds_proof. Qed.
+Print Assumptions rl_retry_succeeds.
+
+Theorem rl_unlock_erases : forall s t o l s' evs,
+  inv s ->
+  Forall (fun e => nosat (e_off e) (e_len e)) (idx s) -> Forall (fun e => nonempty (e_off e) (e_len e)) (idx s) ->
+  u64 o -> u64 l -> nosat o l ->
+  unlock_range s t o l = (s', evs) ->
+  forall e, In e (idx s') -> ~ (o <= e_off e /\ e_off e + e_len e <= o + l).
+Proof. exact rl_unlock_erases_proof. Qed.
+Print Assumptions rl_unlock_erases.
+
+(* F3: with an empty range the statement fails ... *)
+Theorem rl_unlock_erases_refuted :
+  exists s t o l e, reachable op_u64 s /\ Forall (fun e => nosat (e_off e) (e_len e)) (idx s) /\ u64 o /\ u64 l /\ nosat o l /\
+    In e (idx (fst (unlock_range s t o l))) /\ o <= e_off e /\ e_off e + e_len e <= o + l.
+Proof. exact rl_unlock_erases_refuted_proof. Qed.
+Print Assumptions rl_unlock_erases_refuted.
+
+Theorem rl_adjust_safe : forall s t h o l s' evs,
+  inv s -> Forall (fun e => nosat (e_off e) (e_len e)) (idx s) -> u64 o -> u64 l -> nosat o l ->
+  adjust_range s t (Some h) o l = (s', evs) ->
+  (s' = s /\ (evs = [EvRet t (-1)] \/ evs = [EvStale t])) \/
+  (evs = [EvRet t 0] /\ inv s' /\ exists a x b, idx s = a ++ x :: b /\ e_id x = h /\
+     idx s' = a ++ clear_wait (set_range x o l) :: b /\ ready s' = ready s ++ e_wait x /\
+     (forall e y, In e (a ++ b) -> byte_in y e -> o <= y < o + l -> False)).
+Proof. exact rl_adjust_safe_proof. Qed.
+Print Assumptions rl_adjust_safe.
+
+Theorem lower_bound_partition : forall o t, ordered (inorder t) -> Forall wf_e (inorder t) ->
+  tree_lb o t [] = snd (lb_split o (inorder t)).
+Proof. exact lower_bound_partition_proof. Qed.
+Print Assumptions lower_bound_partition.
+
+(* the position is the one emplace_hint needs: everything before it is < r, nothing from it on is *)
+Theorem hint_exact : forall s o pre post, inv s -> lb_split o (idx s) = (pre, post) ->
+  Forall (fun x => r_lt (e_off x) (e_len x) o = true) pre /\
+  Forall (fun x => r_lt (e_off x) (e_len x) o = false) post.
+Proof. exact hint_exact_proof. Qed.
+Print Assumptions hint_exact.
+
+(* rl_waiter_woken, step form: every node removed by unlock(offset,length) / unlock(handle) hands all
+   its waiters to the ready set *)
+Theorem rl_waiter_woken_range : forall s t o l s' evs, unlock_range s t o l = (s', evs) ->
+  forall y, In y (idx s) -> In y (idx s') \/ (forall w, In w (e_wait y) -> In w (ready s')).
+Proof. exact unlock_range_wakes. Qed.
+Print Assumptions rl_waiter_woken_range.
+
+Theorem rl_waiter_woken_handle : forall s t h a x b, find_id h (idx s) = Some (a, x, b) ->
+  idx (fst (unlock_handle s t h)) = a ++ b /\
+  (forall w, In w (e_wait x) -> In w (ready (fst (unlock_handle s t h)))) /\
+  snd (unlock_handle s t h) = [EvRet t 0].
+Proof. exact unlock_handle_wakes. Qed.
+Print Assumptions rl_waiter_woken_handle.
+
+(* rl_waiter_woken, interleaving form (any guard G on the ops, any number of threads, any schedule) *)
+Theorem rl_waiter_woken : forall (G : op -> Prop) s, reachable G s ->
+  forall t p, In (t, p) (pend s) ->
+    In t (ready s) \/ exists e, In e (idx s) /\ In t (e_wait e).
+Proof. exact rl_waiter_woken_proof. Qed.
+Print Assumptions rl_waiter_woken.
+
+Theorem rl_waiters_exact : forall (G : op -> Prop) s, reachable G s ->
+  NoDup (ready s ++ parked (idx s)) /\ (forall t, In t (ready s ++ parked (idx s)) <-> In t (ptids s)).
+Proof. exact rl_waiters_exact_proof. Qed.
+Print Assumptions rl_waiters_exact.
+
+(* no thread is parked on a node that does not conflict with its request (repaired adjust_range) *)
+Theorem rl_no_stuck_waiter : forall (G : op -> Prop) s, reachable G s ->
+  forall e w, In e (idx s) -> In w (e_wait e) ->
+    exists p, lookup_pend w (pend s) = Some p /\ conflict p e.
+Proof. exact rl_no_stuck_waiter_proof. Qed.
+Print Assumptions rl_no_stuck_waiter.
+
+(* F20: the code before repo_patches/C18-fix-adjust-range-notify.diff violates it *)
+Theorem rl_adjust_prefix_refuted :
+  let s := fst (run_ops init_state [OTry 1 KL 0 4; OTry 2 KL 2 2]) in
+  let s' := fst (adjust_range_gen false s 0 (Some 0) 0 1) in
+  snd (adjust_range_gen false s 0 (Some 0) 0 1) = [EvRet 0 0] /\
+  idx s' = [mkE 0 1 0 [2]] /\ lookup_pend 2 (pend s') = Some (mkP KL 2 2 0 4) /\ ready s' = [] /\
+  ready (fst (adjust_range s 0 (Some 0) 0 1)) = [2] /\ idx (fst (adjust_range s 0 (Some 0) 0 1)) = [mkE 0 1 0 []].
+Proof. exact rl_adjust_prefix_refuted_proof. Qed.
+Print Assumptions rl_adjust_prefix_refuted.
+
+(* F3, consequence: after try_lock_wait(5,0); unlock(5,0) a locker of [4,6) parks on the leaked node *)
+Theorem rl_f3_waits_forever_refuted :
+  Forall op_u64 f3_ops /\ Forall (op_P nosat) f3_ops /\
+  let s := fst (run_ops init_state f3_ops) in
+  idx s = [mkE 5 0 0 [2]] /\ lookup_pend 2 (pend s) = Some (mkP KL 4 2 5 0) /\ ready s = [].
+Proof. exact rl_f3_waits_forever_refuted_proof. Qed.
+Print Assumptions rl_f3_waits_forever_refuted.
+
+(* F3, worst form: two empty ranges at one point violate std::set's Compare requirements (undefined behaviour) *)
+Theorem rl_set_precondition_refuted :
+  exists cs, Forall op_u64 cs /\ Forall (op_P nosat) cs /\
+    exists n evs ix, nth_error (run_case cs) n = Some (evs, ix) /\ In (EvUB 2) evs.
+Proof. exact rl_set_precondition_refuted_proof. Qed.
+Print Assumptions rl_set_precondition_refuted.
+
+(* ... which cannot happen under the F3/F4 guards, in any interleaving *)
+Theorem rl_no_ub : forall s, reachable G_strict s ->
+  (forall c u, G_strict c -> ~ In (EvUB u) (snd (exec_op s c))) /\
+  (forall t u, ~ In (EvUB u) (snd (wake s t))).
+Proof. exact rl_no_ub_proof. Qed.
+Print Assumptions rl_no_ub.
